@@ -503,8 +503,12 @@ impl Source {
     /// Return the Vcs used by the package
     pub fn vcs(&self) -> Option<crate::vcs::Vcs> {
         for (name, value) in self.0.items() {
-            if name.starts_with("Vcs-") && name != "Vcs-Browser" {
-                return crate::vcs::Vcs::from_field(&name, &value).ok();
+            if name == "Vcs-Browser" {
+                continue;
+            }
+            // Vcs::from_field takes the name of the system, without the "Vcs-" prefix
+            if let Some(vcs) = name.strip_prefix("Vcs-") {
+                return crate::vcs::Vcs::from_field(vcs, &value).ok();
             }
         }
         None
